@@ -161,7 +161,7 @@ _SITE_PROPS = {**{l: ["C08"] for l in list(_S_A.values()) + list(_S_B1.values())
                **{l: ["C04"] for l in _S_D.values()}}
 
 contract("stochastic.Stochastic.generate.generate_repeat_units_and_finalize.add_repeat_unit",
-         props=["C07", "C08", "C04", "C05"],
+         props=["C07", "C08", "C04", "C05", "C10"], writes_owner="GEN",
          params=dict(my_mol=Ref("MolGen")), captured=dict(self=Ref("Stochastic"), rng=GENERATOR), returns=Ref("MolGen"),
          requires=["molgen_wf(my_mol)", "weights_ok(my_mol.bond_descriptors)"], assumes=list(_STOCH_REQ),
          ensures=list(_ARU), labels={**_ARU, **_STOCH_REQ, **_S_A, **_S_B1, **_S_B2, **_S_C0, **_S_C1, **_S_D},
@@ -171,7 +171,7 @@ contract("stochastic.Stochastic.generate.generate_repeat_units_and_finalize.add_
          ghost_at={_C1: ["d2_token = token"]},
          ghost_on_return=["units = units + 1", "mass_after[units] = mass(my_mol._mol)", "open_after[units] = len(my_mol.bond_descriptors)"],
          clause_props={**_SITE_PROPS, "one-bond-per-step": ["C04", "C05"], "grows-by-one-whole-token": ["C05"], "one-unit-recorded": ["C07"], "earlier-units-unchanged": ["C07"],
-                       "no-draw-in-a-growth-step": ["C07", "C09"], "only-the-growing-molecule-changes": ["C10", "C07"], "frame": ["C10"], "cover": ["C07", "C08", "C04"],
+                       "no-draw-in-a-growth-step": ["C07", "C09"], "only-the-growing-molecule-changes": ["C10", "C07"], "frame": ["C10"], "frame-owner": ["C10"], "cover": ["C07", "C08", "C04"],
                        "grows-the-molecule-it-was-given": ["C07"], "representation-invariant-kept": ["C04", "C07"], "open-weights-stay-non-negative": ["C08"]},
          modifies=["MolGen._mol@my_mol", "MolGen.graph@my_mol", "list@my_mol.bond_descriptors",
                    "ghost.units", "ghost.mass_after", "ghost.open_after", "ghost.bonds", "ghost.bond_a", "ghost.bond_b", "ghost.bond_t", "ghost.at_site_choices",
@@ -233,7 +233,7 @@ _FIN = {
     "molgen_wf(my_mol) and weights_ok(my_mol.bond_descriptors)": "representation-invariant-kept",
 }
 contract("stochastic.Stochastic.generate.finalize_mol",
-         props=["C06", "C08", "C04", "C07"],
+         props=["C06", "C08", "C04", "C07", "C10"], writes_owner="GEN",
          params=dict(my_mol=Ref("MolGen")), captured=dict(self=Ref("Stochastic"), rng=GENERATOR), returns=Ref("MolGen"),
          requires=["molgen_wf(my_mol)", "weights_ok(my_mol.bond_descriptors)", "end_groups_are_leaves(self)"], assumes=list(_STOCH_REQ),
          ensures=list(_FIN), labels={**_FIN, **_STOCH_REQ, **_T_F0, **_T_F1, **_T_F2, **_T_F3, **_T_F4, "end_groups_are_leaves(self)": "inv-end-groups-have-one-descriptor"},
@@ -243,7 +243,7 @@ contract("stochastic.Stochastic.generate.finalize_mol",
          clause_props={**{l: ["C08"] for l in list(_T_F0.values()) + list(_T_F1.values()) + list(_T_F2.values()) + list(_T_F3.values())}, **{l: ["C04"] for l in _T_F4.values()},
                        "no-unit-and-no-draw-while-capping": ["C07"], "recorded-units-unchanged": ["C07"], "variant": ["C06"],
                        "closed-right-end-leaves-no-open-descriptor": ["C06"], "open-right-end-leaves-exactly-the-reserved-descriptor": ["C06"],
-                       "representation-invariant-kept": ["C04", "C06"], "caps-the-molecule-it-was-given": ["C06", "C07"], "cover": ["C06", "C08"], "frame": ["C10"]},
+                       "representation-invariant-kept": ["C04", "C06"], "caps-the-molecule-it-was-given": ["C06", "C07"], "cover": ["C06", "C08"], "frame": ["C10"], "frame-owner": ["C10"]},
          modifies=["MolGen._mol@my_mol", "MolGen.graph@my_mol", "list@my_mol.bond_descriptors",
                    "ghost.bonds", "ghost.bond_a", "ghost.bond_b", "ghost.bond_t", "ghost.at_site_choices", "ghost.d2_token",
                    "ghost.choices", "ghost.last_p", "ghost.last_n", "ghost.last_pick", "ghost.last_rng", "ghost.last_cand", "ghost.last_norm"],
@@ -281,7 +281,7 @@ _C07 = {
     "mass(entry(my_mol)._mol) == mass_after[units]": "growing-molecule-not-capped",
 }
 contract("stochastic.Stochastic.generate.generate_repeat_units_and_finalize",
-         props=["C07", "C09"],
+         props=["C07", "C09", "C10"],
          params=dict(my_mol=Ref("MolGen")), captured=dict(self=Ref("Stochastic"), rng=GENERATOR,
                                                           finalize_mol=("func", "stochastic.Stochastic.generate.finalize_mol")),
          returns=Ref("MolGen"),
@@ -289,7 +289,7 @@ contract("stochastic.Stochastic.generate.generate_repeat_units_and_finalize",
          ensures=list(_C07), labels=_C07,
          clause_props={"target-drawn-from-the-declared-law-with-the-declared-parameters": ["C09", "C07"], "cover": ["C07", "C09"],
                        "returns-a-well-formed-molecule": ["C06", "C07"], "closed-right-end-leaves-no-open-descriptor": ["C06"],
-                       "open-right-end-leaves-exactly-the-reserved-descriptor": ["C06"], "premature-end-leaves-no-open-descriptor": ["C06"]},
+                       "open-right-end-leaves-exactly-the-reserved-descriptor": ["C06"], "premature-end-leaves-no-open-descriptor": ["C06"], "frame": ["C10"], "frame-owner": ["C10"]},
          raises_may={"RuntimeError": "True", "ValueError": "True", "NotImplementedError": "True", "Exception": "True"},
          modifies=["MolGen._mol@my_mol", "MolGen.graph@my_mol", "list@my_mol.bond_descriptors",
                    "ghost.units", "ghost.mass_after", "ghost.open_after", "ghost.bonds", "ghost.bond_a", "ghost.bond_b", "ghost.bond_t",
@@ -324,7 +324,7 @@ _GS = {
     "units == old(units) and draws == old(draws) and bonds == old(bonds)": "no-unit-no-draw-no-bond-at-the-start",
 }
 contract("stochastic.Stochastic.generate.get_start",
-         props=["C06", "C08", "C15"],
+         props=["C06", "C08", "C15", "C10"],
          params={}, captured=dict(self=Ref("Stochastic"), rng=GENERATOR, prefix=NRef("MolGen")), returns=Ref("MolGen"),
          requires=["implies(not is_none(prefix), molgen_wf(prefix))", "self.left_terminal.weight >= 0"],
          assumes=list(_STOCH_REQ) + ["implies(not is_none(prefix) and len(prefix.bond_descriptors) > 0, plain_text_axiom(prefix.bond_descriptors[0], self.left_terminal))"],
@@ -334,7 +334,7 @@ contract("stochastic.Stochastic.generate.get_start",
          ghost_at={"start_token = self.end_tokens[self.end_bond_token_idx[end_bond_idx]]": ["d2_token = start_token"]},
          clause_props={**{l: ["C08"] for l in _T_G0.values()}, "prefix-descriptor-takes-the-left-terminals-weight-and-list": ["C08"],
                        "prefix-open-descriptor-equals-the-left-terminal": ["C15", "C06"], "without-prefix-starts-from-a-picked-end-group": ["C06", "C15"],
-                       "starts-with-exactly-one-open-descriptor": ["C06"], "no-unit-no-draw-no-bond-at-the-start": ["C07"], "cover": ["C06", "C08", "C15"], "frame": ["C10"]},
+                       "starts-with-exactly-one-open-descriptor": ["C06"], "no-unit-no-draw-no-bond-at-the-start": ["C07"], "cover": ["C06", "C08", "C15"], "frame": ["C10"], "frame-owner": ["C10"]},
          modifies=["BondDescriptor.weight@prefix.bond_descriptors[0]", "BondDescriptor.transitions@prefix.bond_descriptors[0]",
                    "ghost.at_site_choices", "ghost.d2_token",
                    "ghost.choices", "ghost.last_p", "ghost.last_n", "ghost.last_pick", "ghost.last_rng", "ghost.last_cand", "ghost.last_norm"],
@@ -358,7 +358,7 @@ _ALL_GHOSTS = ["ghost.units", "ghost.mass_after", "ghost.open_after", "ghost.bon
                "ghost.draws", "ghost.last_draw", "ghost.last_draw_rng", "ghost.last_draw_family", "ghost.last_draw_p1", "ghost.last_draw_p2",
                "ghost.choices", "ghost.last_p", "ghost.last_n", "ghost.last_pick", "ghost.last_rng", "ghost.last_cand", "ghost.last_norm"]
 contract("stochastic.Stochastic.generate",
-         props=["C06", "C07", "C09", "C15"],
+         props=["C06", "C07", "C09", "C15", "C10"],
          params=dict(self=Ref("Stochastic"), prefix=NRef("MolGen"), rng=GENERATOR), defaults={"prefix": None, "rng": None}, returns=Ref("MolGen"),
          requires=["implies(not is_none(prefix), molgen_wf(prefix))", "wellposed_s(self)"],
          # wellposed_s(o): "every end group of o is a leaf", as a state-independent predicate of the object (the notation is never written during
@@ -393,7 +393,7 @@ _TG = {
     "units == old(units) and draws == old(draws)": "no-unit-and-no-draw",
 }
 contract("token.SmilesToken.generate",
-         props=["C06", "C04", "C08", "C15", "C05"],
+         props=["C06", "C04", "C08", "C15", "C05", "C10"],
          params=dict(self=Ref("SmilesToken"), prefix=NRef("MolGen"), rng=GENERATOR), defaults={"prefix": None, "rng": None}, returns=Ref("MolGen"),
          requires=["implies(not is_none(prefix), molgen_wf(prefix))"],
          assumes=["token_wf(self)", "owner(self) == NOTATION and owner(self.bond_descriptors) == NOTATION"],
